@@ -97,6 +97,9 @@ type Path struct {
 	notes    []string
 	depth    int
 	pendingEscape interface{}
+	sealSeq, rndSeq, lzwSeq int
+	sealsT   []*sealRecT
+	lzws     []*lzwRec
 	merges   int
 	chanSeq  int
 	crcs     []crcRec
